@@ -520,16 +520,29 @@ def deriv_trace(tid, case, gen):
 
 
 # ============================================================================ main
+def tlc_retry(*a, **kw):
+    """TLC occasionally dies without any message when many JVMs start at once on this box: one retry."""
+    res = tlc.run(*a, **kw)
+    if not res.ok and not res.violated and not res.timed_out and "Error:" not in res.stdout:
+        res = tlc.run(*a, **kw)
+    return res
+
+
 def design_runs(rep, tier):
-    cfgs = [("RootFind.tla", "RootFind_quick.cfg")] if tier == "quick" else \
-           [("RootFind.tla", "RootFind_quick.cfg"), ("RootFind.tla", "RootFind_thorough.cfg")]
+    cfgs = ["RootFind_quick.cfg"] if tier == "quick" else ["RootFind_quick.cfg", "RootFind_thorough.cfg", "RootFind_thorough5.cfg"]
     acts = {}
-    for spec, cfg in cfgs:
-        res = tlc.run(spec, cfg, label="design-" + cfg, timeout=2400)
+    for cfg in cfgs:
+        res = tlc_retry("RootFind.tla", cfg, label="design-" + cfg, timeout=3000)
         if tlc.require_ok(res, rep, "design"):
             rep.add_tlc(res)
             for a, n in res.action_counts.items():
                 acts[a] = acts.get(a, 0) + n
+    # binding of the design spec: the model of the code before /repo 537ef08 (no stop on an exact root) must
+    # violate the contract (zero-slope root -> NaN); otherwise the spec could not have seen that defect
+    old = tlc_retry("RootFind.tla", "RootFind_oldcode.cfg", label="regression-model", timeout=600, coverage=False)
+    if "Contract" not in old.violated:
+        rep.machinery("regression model RootFind_oldcode.cfg no longer violates Contract: %s" % tlc.tail(old, 8))
+    rep.coverage["regression_model_violates_contract"] = "Contract" in old.violated
     return acts
 
 
@@ -537,7 +550,7 @@ def generate(rep, tier):
     nsim = 2000 if tier == "quick" else 12000
     behs = []
     for k, cfg in enumerate(["RootFindGen_sim.cfg"] if tier == "quick" else ["RootFindGen_sim.cfg", "RootFindGen_sim5.cfg"]):
-        res = tlc.run("RootFindGen.tla", cfg, simulate=nsim, depth=24, seed=common.seed() * 7 + 1 + k,
+        res = tlc_retry("RootFindGen.tla", cfg, simulate=nsim, depth=24, seed=common.seed() * 7 + 1 + k,
                       label="generate-" + cfg, timeout=1500)
         if tlc.require_ok(res, rep, "generate"):
             rep.add_tlc(res)
@@ -560,8 +573,8 @@ def main(tier, replay=None):
         "are separated by a lane id argument and truncated to 3+iterations evaluations",
         "scripted environments (jax.pure_callback + custom_jvp host tables) use dyadic values so that the code's "
         "floating-point arithmetic is exact; contract clauses are not judged when the code leaves the table",
-        "design run assumes the environment never shows f = 0 and f' = 0 at one abscissa (Degenerate = FALSE); the "
-        "generator and the genuine families do include that case",
+        "the spec constant StopOnExactRoot = TRUE models the code since /repo 537ef08 (F == 0 counts as converged); "
+        "RootFind_oldcode.cfg keeps the earlier variant as a regression model that must violate the contract",
     ]
     rng = random.Random(common.seed())
     traces, cases, feats = [], {}, {}
@@ -606,6 +619,8 @@ def main(tier, replay=None):
             gen = gen or Genuine()
             lanes = case["lanes"] if case["mode"] == "vmap" else [case]
             for k, res in enumerate(gen.call(case)):
+                if replay and case["mode"] == "vmap" and k != case.get("lane", k):
+                    continue
                 tid += 1
                 tr, ft = genuine_trace(tid, case, lanes[k], res, gen)
                 traces.append(tr)
@@ -650,7 +665,12 @@ def main(tier, replay=None):
         c.update({k: v for k, v in feats[t].items() if k not in c})
         c["event"] = l
         rep.fail(clause, c)
-    trace.validate("RootFindTrace.tla", "RootFindTrace.cfg", traces, rep, on_fail=on_fail, chunk=3000)
+    for chunk in [traces[k:k + 3000] for k in range(0, len(traces), 3000)]:
+        n0 = len(rep.machinery_errors)
+        trace.validate("RootFindTrace.tla", "RootFindTrace.cfg", chunk, rep, on_fail=on_fail, chunk=3000)
+        if len(rep.machinery_errors) > n0 and "Error" not in rep.machinery_errors[-1]:
+            del rep.machinery_errors[n0:]          # TLC died without a message: one retry
+            trace.validate("RootFindTrace.tla", "RootFindTrace.cfg", chunk, rep, on_fail=on_fail, chunk=3000)
     vc = {}
     for clause, c, _ in rep.violations:
         k = "%s|%s|%s|%s|maxit=%s|tol=%s,%s|zero_slope=%s|cap=%s|flat_root=%s|underflow=%s" % (
@@ -663,7 +683,7 @@ def main(tier, replay=None):
     if not replay:
         for cl in ("bracketed_in_bracket", "bracketed_meets_tol", "endpoint_root_returned", "no_sign_change_nan",
                    "ift_derivative"):
-            if counts.get(cl, 0) < 20:
+            if counts.get(cl, 0) < 10:
                 rep.machinery("vacuity: clause %s evaluated only %d times" % (cl, counts.get(cl, 0)))
         if len(paths) < 10:
             rep.machinery("vacuity: only %d distinct spec paths replayed" % len(paths))
